@@ -62,34 +62,109 @@ def check_tree(ctx, case):
                 ctx.count("excluded_huge_constant")
                 continue
             det = {"tree": text, "rule": name, "arrangement": ap.arrangement, "node": E.text_of(n), "index": idx, "result": E.text_of(res)}
-            vs = A.variables(root) | A.variables(res)
-            assigns = G.assignments(vs, 8)
             sides = None
             if is_eq:
                 sides = "multiset" if (A.kind(n) == "EqualExpression" and name in ("CS1", "CS0")) else [(1, 1), (2, 2)]
-            try:
-                verdict, info = Q.compare_expressions(ctx, root, res, ap.fresh_consts, assigns, sides)
-            except X.Malformed as e:
-                ctx.count("skipped:unevaluable-structure")
-                continue
-            if verdict == "kind":
-                det.update(info)
-                return ctx.fail((name, ap.arrangement, "equation-kind-changed"), case, det)
-            if verdict == "mismatch":
-                det.update(info)
-                return ctx.fail((name, ap.arrangement, "value"), case, det)
-            w = E.evaluate_disagrees(res)
-            if w is not None and E.evaluate_disagrees(root) is None:
-                det.update(w)
-                return ctx.fail((name, ap.arrangement, "evaluate-disagrees-with-structure"), case, det)
-            if info.get("compared", 0) >= 3 and A.sig(res) != src_sig:
+            verdict = judge(ctx, case, name, ap.arrangement, root, res, ap.fresh_consts, sides, det)
+            if verdict == "fail":
+                return
+            if verdict == "compared" and A.sig(res) != src_sig:
                 ctx.nontriv((case["text"], repr(case.get("pre")), name, idx))
                 if not sampled:
                     ctx.sample({k: det[k] for k in ("tree", "rule", "arrangement", "node", "result")})
                     sampled = True
 
 
+def judge(ctx, case, name, arrangement, root, res, fresh_consts, sides, det):
+    """Compare the value of `root` (before) and `res` (after). Returns 'fail' (reported), 'compared' or 'skipped'."""
+    vs = A.variables(root) | A.variables(res)
+    assigns = G.assignments(vs, 8)
+    try:
+        verdict, info = Q.compare_expressions(ctx, root, res, fresh_consts, assigns, sides)
+    except X.Malformed:
+        ctx.count("skipped:unevaluable-structure")
+        return "skipped"
+    if verdict == "kind":
+        det.update(info)
+        ctx.fail((name, arrangement, "equation-kind-changed"), case, det)
+        return "fail"
+    if verdict == "mismatch":
+        det.update(info)
+        ctx.fail((name, arrangement, "value"), case, det)
+        return "fail"
+    w = E.evaluate_disagrees(res)
+    if w is not None and E.evaluate_disagrees(root) is None:
+        det.update(w)
+        ctx.fail((name, arrangement, "evaluate-disagrees-with-structure"), case, det)
+        return "fail"
+    return "compared" if info.get("compared", 0) >= 3 else "skipped"
+
+
+def check_inplace(ctx, case):
+    """A sequence of rewrites applied IN PLACE on one tree (the way the repository's own rule tests apply a rule) with one
+    set of long-lived rule objects that are asked about every node before every step (a search agent's move mask). The
+    value must be preserved by every step; anything a rule object remembers about a node or an id must not matter."""
+    root = E.parse(case["text"])
+    if root is None or X.has_nonfinite(root) or E.has_huge_constant(root):
+        return
+    rules = E.rule_instances()
+    ctx.count("inplace:walks")
+    for ri, ni in case["steps"]:
+        nodes = A.inorder(root)
+        mask = {}
+        for name, rule in rules:
+            for n in nodes:
+                try:
+                    if rule.can_apply_to(n):
+                        mask.setdefault(name, []).append(n)
+                except Exception:
+                    ctx.count("skipped:can_apply-raised(C06)")
+        name, rule = rules[ri % len(rules)]
+        cands = mask.get(name)
+        if name == "BM" or not cands:
+            continue
+        n = cands[ni % len(cands)]
+        idx = [id(x) for x in nodes].index(id(n))
+        text = E.text_of(root)
+        is_eq = Q.is_equation(root)
+        sides = None
+        if is_eq:
+            sides = "multiset" if (A.kind(n) == "EqualExpression" and name in ("CS1", "CS0")) else [(1, 1), (2, 2)]
+        arrangement = E.arrangement(rule, n)
+        try:
+            before = root.clone()
+        except Exception:
+            return
+        before_sig = A.sig(root)
+        before_ids = {id(x) for x in nodes}
+        det = {"tree": text, "rule": name, "arrangement": arrangement, "node": E.text_of(n), "index": idx, "mode": "in place, long-lived rule objects"}
+        try:
+            res = rule.apply_to(n).result
+            new_root = E._root(res)
+        except Exception:
+            ctx.count("skipped:apply-raised(C06)")
+            return
+        ctx.count("applications")
+        ctx.count(f"inplace-applied:{name}:{arrangement}")
+        if A.audit(new_root) is not None:
+            ctx.count("skipped:malformed-result(C07)")
+            return
+        if X.has_nonfinite(new_root) or E.has_huge_constant(new_root):
+            ctx.count("excluded_nonfinite_or_huge")
+            return
+        det["result"] = E.text_of(new_root)
+        fresh = [c for c in A.preorder(new_root) if A.kind(c) == "ConstantExpression" and id(c) not in before_ids]
+        verdict = judge(ctx, case, name, arrangement, before, new_root, fresh, sides, det)
+        if verdict == "fail":
+            return
+        if verdict == "compared" and A.sig(new_root) != before_sig:
+            ctx.nontriv(("inplace", case["text"], repr(case["steps"]), name, idx))
+        root = new_root
+
+
 def replay(ctx, case):
+    if "steps" in case:
+        return check_inplace(ctx, case)
     check_tree(ctx, case)
 
 
@@ -123,3 +198,14 @@ def run(ctx):
         check_tree(ctx, {"text": t, "pre": []})
     ctx.info["small_expressions_exhaustive"] = f"{len(small)} expressions with <= {2 if ctx.tier == 'quick' else 3} binary operators over leaves x y 2 -1 0 0.5"
     hyp_run(ctx, "g-tree", G.tree_case(12 if ctx.tier == "quick" else 24), check_tree, ctx.n(2500, 15000))
+    # in-place sequences with long-lived rule objects (deterministic starts from the template sweep, then drawn ones)
+    step = 8 if ctx.tier == "quick" else 1
+    for i, t in enumerate(texts):
+        if i % step != ctx.seed % step or (i // step) % ctx.nshards != ctx.shard:
+            continue
+        ctx.count("evaluations")
+        check_inplace(ctx, {"text": t, "steps": [[(i + 3 * k) % 11, i + k] for k in range(5)]})
+    from hypothesis import strategies as st
+
+    walk = st.builds(lambda t, steps: {"text": t, "steps": steps}, G.tree_text(12), st.lists(st.tuples(st.integers(0, 10), st.integers(0, 40)).map(list), min_size=2, max_size=6))
+    hyp_run(ctx, "in-place", walk, check_inplace, ctx.n(600, 5000))
